@@ -70,6 +70,8 @@ def eval_cfg(expr):
 class Rewriter:
     """newline-preserving textual rewrites on a comment-stripped fragment"""
 
+    unit_macros = {}
+
     def __init__(self, log, tags):
         self.log = log      # dict rule -> count
         self.tags = tags    # set of tag consts seen
@@ -166,7 +168,7 @@ class Rewriter:
     def macros(self, text):
         """R1, R2, R3, R7 on macro invocations (innermost-last by repeated search)."""
         pos = 0
-        pat = re.compile(r"\b([a-z_][a-z0-9_]*)\s*!\s*([(\[{])")
+        pat = re.compile(r"(?:\b[a-z_][a-z0-9_]*\s*::\s*|::\s*)*\b([a-z_][a-z0-9_]*)\s*!\s*([(\[{])")
         while True:
             m = pat.search(text, pos)
             if not m:
@@ -180,7 +182,10 @@ class Rewriter:
             whole = text[m.start():end]
             repl = None
             stmt = False
-            if name in DELETE_MACROS:
+            if name in Rewriter.unit_macros:
+                repl = Rewriter.unit_macros[name]
+                self.count("R2 unit macro %s!(..) -> %s" % (name, repl))
+            elif name in DELETE_MACROS:
                 repl = ""
                 stmt = True
                 self.count("R1 log/trace macro deleted")
@@ -374,10 +379,14 @@ class Unit:
     def process(self):
         lines = self.load_template(self.template_path)
         # first pass: unit-wide maps
+        Rewriter.unit_macros = {}
         for ln, org in lines:
             m = re.match(r"\s*//@map\s+(.*)$", ln)
             if m:
                 self.maps.append(parse_map(m.group(1)))
+            m = re.match(r"\s*//@macro\s+(\w+)\s*=>\s*(.*)$", ln)
+            if m:
+                Rewriter.unit_macros[m.group(1)] = m.group(2).strip()
             m = re.match(r"\s*//@props\s+(.*)$", ln)
             if m:
                 self.default_props = m.group(1).split()
@@ -386,7 +395,7 @@ class Unit:
         while i < n:
             ln, org = lines[i]
             s = ln.strip()
-            if s.startswith("//@map") or s.startswith("//@props") or s.startswith("//@unit"):
+            if s.startswith("//@map") or s.startswith("//@props") or s.startswith("//@unit") or s.startswith("//@macro"):
                 i += 1
                 continue
             if s.startswith("//@type"):
@@ -449,7 +458,13 @@ class Unit:
         copts = parse_opts(mo.group(3))
         ctx = copts.get("ctx")
         f = self.rf(rel)
-        it = f.find_const(name, ctx)
+        def cfg_ok(c):
+            for a in getattr(c, "attrs", []):
+                mm = re.match(r"#\s*\[\s*cfg\s*\((.*)\)\s*\]\s*$", a, re.S)
+                if mm and not eval_cfg(mm.group(1)):
+                    return False
+            return True
+        it = f.find_const(name, ctx, cfg_ok)
         if it is None:
             raise ExtractError("anchor lost: const %s in %s" % (name, rel))
         rw = Rewriter(self.log, self.tags)
@@ -503,6 +518,8 @@ class Unit:
             rw.count("R10 ghost field added to %s: %s" % (name, g))
         line0 = f.line_of(it.start)
         self.types.append({"name": name, "file": rel, "line": line0})
+        if opts.get("attr"):
+            self.out.append((opts["attr"], ("generated", "attr", 0)))
         for k, ln in enumerate(text.split("\n")):
             self.out.append((ln, ("repo", rel, line0 + k)))
         # derived traits: only what the real item derives may be assumed structural
@@ -829,7 +846,7 @@ class Unit:
         lines = []
         for k, (ln, org) in enumerate(self.out):
             if k == 0:
-                ln = "#![allow(non_upper_case_globals, unused_imports, unused_variables, dead_code, unused_mut, unused_parens, unused_braces)] " + ln
+                ln = "#![feature(allocator_api)] #![allow(non_upper_case_globals, unused_imports, unused_variables, dead_code, unused_mut, unused_parens, unused_braces)] " + ln
             if ln.startswith("//@@CANARY"):
                 lines.append("proof { assert(false); } " + ln if canary else ln)
             else:
